@@ -4,6 +4,7 @@ import (
 	"bytes"
 	"encoding/json"
 	"fmt"
+	"reflect"
 	"strconv"
 	"strings"
 	"unicode/utf16"
@@ -209,6 +210,39 @@ func builtinJSONStringify(call FunctionCall) Value {
 	return stringValue(string(valueJSON))
 }
 
+// sameGoValue reports whether two objects wrap the same Go struct, map or
+// slice: every read of a bridged member makes a new wrapper object, so a
+// cycle through Go values never meets the same *object twice.
+func sameGoValue(a, b *object) bool {
+	if a == nil || b == nil {
+		return false
+	}
+	typeA, pointerA, lengthA, okA := goValueIdentity(a)
+	typeB, pointerB, lengthB, okB := goValueIdentity(b)
+	return okA && okB && typeA == typeB && pointerA == pointerB && lengthA == lengthB
+}
+
+func goValueIdentity(obj *object) (reflect.Type, uintptr, int, bool) {
+	switch value := obj.value.(type) {
+	case *goStructObject:
+		switch {
+		case value.value.Kind() == reflect.Ptr && !value.value.IsNil():
+			return value.value.Type().Elem(), value.value.Pointer(), 0, true
+		case value.value.Kind() == reflect.Struct && value.value.CanAddr():
+			return value.value.Type(), value.value.Addr().Pointer(), 0, true
+		}
+	case *goMapObject:
+		if !value.value.IsNil() {
+			return value.value.Type(), value.value.Pointer(), 0, true
+		}
+	case *goSliceObject:
+		if value.value.Len() > 0 {
+			return value.value.Type(), value.value.Pointer(), value.value.Len(), true
+		}
+	}
+	return nil, 0, 0, false
+}
+
 func builtinJSONStringifyWalk(ctx builtinJSONStringifyContext, key string, holder *object) (interface{}, bool) {
 	value := holder.get(key)
 
@@ -269,7 +303,7 @@ func builtinJSONStringifyWalk(ctx builtinJSONStringifyContext, key string, holde
 		objHolder := value.object()
 		if value := value.object(); nil != value {
 			for _, obj := range ctx.stack {
-				if objHolder == obj {
+				if objHolder == obj || sameGoValue(objHolder, obj) {
 					panic(ctx.call.runtime.panicTypeError("Converting circular structure to JSON"))
 				}
 			}
